@@ -152,10 +152,25 @@ pub fn run(a: &Args) -> i32 {
             }
         }
     }
+    // mating material for Black as well: the colour-swapped rotated image of every endgame, and
+    // two-rook / rook-and-queen mates at depth 6 and 7 (forced mates of different lengths inside
+    // one search, for either colour)
+    let deep_mates = ["2K5/8/3k2r1/r7/8/8/8/8 w - - 0 1", "2k5/8/3K2R1/R7/8/8/8/8 b - - 0 1", "8/8/8/8/8/5k2/1r6/3q2K1 w - - 0 1", "1K6/8/2k5/8/8/8/7r/6r1 b - - 0 1"];
+    for fen in deep_mates {
+        let root = Pos::from_fen(fen).unwrap();
+        if !root.is_consistent() {
+            eprintln!("MACHINERY-ERROR: inconsistent C08 endgame {}", fen);
+            return 2;
+        }
+        for d in if thorough { vec![6u8, 7] } else { vec![6u8] } {
+            cases.push(CaseA { pos: root.clone(), depth: d, class: "deep-mate" });
+        }
+    }
     for (_, fen) in ENDGAMES {
         let root = Pos::from_fen(fen).unwrap();
         for d in 3..=(if thorough { 6 } else { 5 }) {
             cases.push(CaseA { pos: root.clone(), depth: d, class: "small-endgame" });
+            cases.push(CaseA { pos: root.mirrored_rot180(), depth: d, class: "small-endgame(colours swapped)" });
         }
         if thorough {
             for m in root.legal_moves() {
